@@ -39,7 +39,14 @@ def teardown():
 
 run, to_val, num_of, from_val = _meta.run, _meta.to_val, _meta.num_of, _meta.from_val
 features, nontrivial, known, skip, shrink = _meta.features, _meta.nontrivial, _meta.known, _meta.skip, _meta.shrink
-equal, spec_ok = _meta.src_equal, _meta.src_spec_ok
+equal = _meta.src_equal
+KNOWN_PROPS = ['C11'] + SOURCES
+
+
+def spec_ok(case, impl, spec, mode):
+    """C11 judges the two runtimes against each other (cross_mode) and against the one model (`equal`); whether
+    that common behaviour meets the source property's specification is the source property's own check."""
+    return True
 
 
 def cross_mode(case, impl_by_mode, model):
